@@ -18,6 +18,9 @@ Clause(e) ==
     ELSE IF \E c \in v : \E x \in d : x.key = c.key /\ x.bytes # c.bytes THEN <<"variant_encodes_other_bytes", { c.key : c \in { y \in v : \E x \in d : x.key = y.key /\ x.bytes # y.bytes } }>>
     ELSE IF \E c \in v : \E x \in d : x.key = c.key /\ x.json # c.json THEN <<"variant_prints_other_json", "">>
     ELSE IF \E c \in v : \E x \in d : x.key = c.key /\ x.which # c.which THEN <<"variant_selects_other_oneof_member", "">>
+    \* ... and after a wire round trip followed by the assignment of another member of each oneof
+    ELSE IF \E c \in v : \E x \in d : x.key = c.key /\ (x.bytes2 # c.bytes2 \/ x.json2 # c.json2 \/ x.which2 # c.which2)
+         THEN <<"variant_behaves_differently_after_parse_and_assignment", { c.key : c \in { y \in v : \E x \in d : x.key = y.key /\ (x.bytes2 # y.bytes2 \/ x.json2 # y.json2 \/ x.which2 # y.which2) } }>>
     ELSE <<"ok", "">>
 KFO(e, clause) ==
   IF clause = "variant_does_not_import" /\ e.pydantic /\ (\E n \in SeqSet(e.field_names) : n \in SeqSet(Shard.hdr.builtin_type_names))
